@@ -6,6 +6,10 @@ out = tempfile.mkdtemp(prefix="baseline_", dir="/verif/.work") if os.path.isdir(
 xml = os.path.join(out, "run.junit.xml")
 env = dict(os.environ); env.pop("EASYNETWORK_VERIF", None)
 cmd = base["cmd"].replace("<file>", xml)
+alt = os.environ.get("VERIF_REPO")
+if alt and alt != "/repo":      # development only: run the same suite in a scratch worktree
+    cmd = cmd.replace("cd /repo", f"cd {alt}")
+    env["PYTHONPATH"] = f"{alt}/src"
 r = subprocess.run(cmd, shell=True, env=env, stdout=subprocess.PIPE, stderr=subprocess.STDOUT, text=True)
 passed = set()
 for tc in ET.parse(xml).getroot().iter("testcase"):
